@@ -11,6 +11,55 @@ NCPU = os.cpu_count() or 4
 GOENV = dict(os.environ, GOFLAGS='-mod=mod', GOPROXY='off', GOSUMDB='off', GOTOOLCHAIN='local')
 
 
+def count_lines(path):
+    n = 0
+    with open(path, 'rb') as f:
+        for _ in f:
+            n += 1
+    return n
+
+
+def pick_lines(path, idxs0):
+    """the lines with the given 0-based indices, as {index: text}, reading the file once"""
+    want = set(i for i in idxs0 if i >= 0)
+    got = {}
+    if not want:
+        return got
+    last = max(want)
+    with open(path) as f:
+        for i, line in enumerate(f):
+            if i in want:
+                got[i] = line.rstrip('\n')
+            if i >= last:
+                break
+    return got
+
+
+class ScnList:
+    """scenarios TLC printed, kept on disk (one JSON object per line in each file); behaves like a read-only list of dicts"""
+
+    def __init__(self, files=()):
+        self.files = list(files)          # (path, count)
+
+    def __len__(self):
+        return sum(n for _, n in self.files)
+
+    def __iter__(self):
+        for path, _ in self.files:
+            with open(path) as f:
+                for line in f:
+                    yield json.loads(line)
+
+    def __add__(self, other):
+        return ScnList(self.files + other.files)
+
+    def __bool__(self):
+        return len(self) > 0
+
+    def tolist(self):
+        return list(iter(self))
+
+
 class Infra(Exception):
     pass
 
@@ -107,9 +156,24 @@ class Ctx:
         env['JAVA_TOOL_OPTIONS'] = opts
         cmd = ['timeout', str(timeout), 'tlc', '-workers', str(workers), '-metadir', os.path.join(d, 'meta-' + module),
                '-config', module + '.cfg'] + list(extra) + [module + '.tla']
-        r = subprocess.run(cmd, cwd=d, env=env, capture_output=True, text=True)
-        out = r.stdout
-        open(os.path.join(d, module + '.out'), 'w').write(out + '\n--- stderr ---\n' + r.stderr)
+        # TLC's output goes to a file; the scenario lines ("SCN {json}", possibly millions) are moved to <module>.scn
+        # as plain JSON lines and are not kept in memory; what is returned is the rest of the output
+        raw = os.path.join(d, module + '.raw')
+        with open(raw, 'w') as fo, open(os.path.join(d, module + '.err'), 'w') as fe:
+            r = subprocess.run(cmd, cwd=d, env=env, stdout=fo, stderr=fe, text=True)
+        keep = []
+        nscn = 0
+        with open(raw, errors='replace') as fi, open(os.path.join(d, module + '.scn'), 'w') as fs:
+            for line in fi:
+                if line.startswith('"SCN ') and line.rstrip('\n').endswith('"'):
+                    fs.write(line.rstrip('\n')[5:-1].replace('\\"', '"').replace('\\\\', '\\') + '\n')
+                    nscn += 1
+                else:
+                    keep.append(line)
+        os.remove(raw)
+        out = ''.join(keep)
+        open(os.path.join(d, module + '.out'), 'w').write(out + '\n--- stderr ---\n' + open(os.path.join(d, module + '.err')).read())
+        self.last_scn = (os.path.join(d, module + '.scn'), nscn)
         if r.returncode == 124:
             raise Infra('TLC timed out on %s' % module)
         return r.returncode, out
@@ -134,8 +198,7 @@ class Ctx:
     def validate(self, name, module, recfile, declsfile, props, defects=(), shards=None, timeout=3600, extra_files=()):
         """Splits recfile into shards and validates each with TLC.  Returns (bad, stats, n):
         bad[prop] = sorted list of 1-based record indices judged bad."""
-        lines = open(recfile).read().splitlines()
-        n = len(lines)
+        n = count_lines(recfile)
         bad = {p: [] for p in props}
         stats = {}
         if n == 0:
@@ -143,16 +206,19 @@ class Ctx:
         k = shards or max(1, min(NCPU, n // 300 + 1))
         cfg = 'SPECIFICATION Spec\nCONSTANT Defects = {%s}\nINVARIANT JudgeRecord\nCHECK_DEADLOCK FALSE\nPOSTCONDITION Post\n' % ', '.join('"%s"' % x for x in defects)
         jobs = []
-        for i in range(k):
-            lo, hi = i * n // k, (i + 1) * n // k
-            if lo == hi:
-                continue
-            d = self.specdir('%s-shard%d' % (name, i))
-            open(os.path.join(d, 'trace.ndjson'), 'w').write('\n'.join(lines[lo:hi]) + '\n')
-            shutil.copy(declsfile, os.path.join(d, 'decls.ndjson'))
-            for f in extra_files:
-                shutil.copy(f, d)
-            jobs.append((d, lo, hi))
+        with open(recfile) as fin:                     # the records are streamed into the shard files, never held in memory
+            for i in range(k):
+                lo, hi = i * n // k, (i + 1) * n // k
+                if lo == hi:
+                    continue
+                d = self.specdir('%s-shard%d' % (name, i))
+                with open(os.path.join(d, 'trace.ndjson'), 'w') as fo:
+                    for _ in range(hi - lo):
+                        fo.write(fin.readline().rstrip('\n') + '\n')
+                shutil.copy(declsfile, os.path.join(d, 'decls.ndjson'))
+                for f in extra_files:
+                    shutil.copy(f, d)
+                jobs.append((d, lo, hi))
 
         def run(job):
             d, lo, hi = job
